@@ -174,7 +174,11 @@ func TestC14Edits(t *testing.T) {
 
 		typePool := []string{"a", "b", "ab", "c", "", "a_b", "a-b", "A", "aB"} // names are case-sensitive
 		attrPool := []string{"x", "y", "xy", "r", "", "prix€"}
-		relPool := []string{"r", "s", "rs", "a_b", "x", "", "m²"}
+		relPool := []string{"r", "s", "rs", "a_b", "x", "", "m²", "b_r"}
+
+		// (the last pair that was added: a later pair may read the same once
+		// its four names are joined with underscores - a + b_r against a_b + r)
+		var lastPair *jsonapi.Rel
 
 		history := []string{}
 		failedEdits, nonLastRemovals, twoWayNonNormal := 0, 0, 0
@@ -392,6 +396,26 @@ func TestC14Edits(t *testing.T) {
 					}
 				}
 
+				if lastPair != nil && rapid.IntRange(0, 3).Draw(t, "alias") == 0 {
+					alias := func(typ, name string) (string, string) {
+						switch {
+						case typ == "a" && strings.HasPrefix(name, "b_"):
+							return "a_b", strings.TrimPrefix(name, "b_")
+						case typ == "a_b":
+							return "a", "b_" + name
+						}
+
+						return typ, name
+					}
+
+					rel = *lastPair
+					if rapid.Bool().Draw(t, "alias-to-side") {
+						rel.ToType, rel.ToName = alias(rel.ToType, rel.ToName)
+					} else {
+						rel.FromType, rel.FromName = alias(rel.FromType, rel.FromName)
+					}
+				}
+
 				if rel.FromType == rel.ToType && rel.FromName == rel.ToName {
 					t.Skip("a relationship that is its own inverse is outside the domain")
 				}
@@ -431,6 +455,8 @@ func TestC14Edits(t *testing.T) {
 				step(fmt.Sprintf("AddTwoWayRel(%s)", relDesc(rel)), wantErr, func() error { return schema.AddTwoWayRel(rel) }, func() {
 					a.rels[rel.FromName] = rel
 					b.rels[rel.ToName] = rel.Invert()
+					kept := rel
+					lastPair = &kept
 				})
 			},
 			"": func(t *rapid.T) {
